@@ -77,7 +77,10 @@ const (
 	KChild
 	KIs
 	KOr
+	KPseudo // A::name, N = 1 before, 2 after, 3 marker
 )
+
+var pseudoNames = []string{"", "before", "after", "marker"}
 
 type Sel struct {
 	K int  `json:"k"`
@@ -122,6 +125,8 @@ func (s *Sel) css() string {
 		return ":is(" + s.A.css() + ")"
 	case KOr:
 		return s.A.css() + ", " + s.B.css()
+	case KPseudo:
+		return s.A.css() + "::" + pseudoNames[s.N]
 	}
 	panic("sel kind")
 }
@@ -150,6 +155,8 @@ func (s *Sel) coq() string {
 		return "(SIs " + s.A.coq() + ")"
 	case KOr:
 		return "(SOr " + s.A.coq() + " " + s.B.coq() + ")"
+	case KPseudo:
+		return fmt.Sprintf("(SPseudo %d %s)", s.N, s.A.coq())
 	}
 	panic("sel kind")
 }
@@ -330,15 +337,23 @@ type Doc struct {
 	PH      []Rule        `json:"ph"`
 	Authors []AuthorSheet `json:"authors"`
 	Users   []UserSheet   `json:"users"`
-	Body    string        `json:"body"`  // inner HTML of <body>
-	Props   []int         `json:"props"` // observed properties
+	Body    string        `json:"body"`             // inner HTML of <body>
+	Props   []int         `json:"props"`            // observed properties
+	Pseudo  bool          `json:"pseudo,omitempty"` // also observe ::before, ::after, ::marker
 }
 
 // ------------------------------------------------------------------ running /repo
 
 type observed struct {
-	path []*html.Node // element, ancestors
-	vals []int
+	path    []*html.Node // element, ancestors
+	vals    []int
+	pseudos []pseudoObs
+}
+
+type pseudoObs struct {
+	k       int
+	present bool
+	vals    []int
 }
 
 func readBack(st pr.ElementStyle, prop int) int {
@@ -466,6 +481,21 @@ func (d *Doc) run() ([]observed, string, error) {
 		for _, p := range d.Props {
 			o.vals = append(o.vals, readBack(st, p))
 		}
+		if d.Pseudo {
+			for k := 1; k <= 3; k++ {
+				po := pseudoObs{k: k}
+				sp := sf.Get(e, pseudoNames[k])
+				po.present = sp != nil
+				for _, p := range d.Props {
+					v := 0
+					if sp != nil {
+						v = readBack(sp, p)
+					}
+					po.vals = append(po.vals, v)
+				}
+				o.pseudos = append(o.pseudos, po)
+			}
+		}
 		out = append(out, o)
 	}
 	return out, htmlText, nil
@@ -559,7 +589,15 @@ func (d *Doc) coq(obs []observed) string {
 		for i, p := range d.Props {
 			vals = append(vals, fmt.Sprintf("(Ob %d %d)", p, o.vals[i]))
 		}
-		elems = append(elems, "(EO "+vlib.List(path)+" "+vlib.List(vals)+")")
+		var pos []string
+		for _, po := range o.pseudos {
+			var pv []string
+			for i, p := range d.Props {
+				pv = append(pv, fmt.Sprintf("(Ob %d %d)", p, po.vals[i]))
+			}
+			pos = append(pos, fmt.Sprintf("(PO %d %s %s)", po.k, vlib.Bool(po.present), vlib.List(pv)))
+		}
+		elems = append(elems, "(EO "+vlib.List(path)+" "+vlib.List(vals)+" "+vlib.List(pos)+")")
 	}
 	return fmt.Sprintf("CDoc %d %s %s %d %s %d %s %s %s", d.Device, vlib.Bool(d.Hints), rulesCoq(d.UA), d.Device,
 		rulesCoq(d.PH), d.Device, vlib.List(authors), vlib.List(users), vlib.List(elems))
@@ -568,10 +606,35 @@ func (d *Doc) coq(obs []observed) string {
 // ------------------------------------------------------------------ generators
 
 type gen struct {
-	r     *vlib.Rng
-	vid   int
-	props []int
-	tags  map[string]bool
+	r      *vlib.Rng
+	vid    int
+	props  []int
+	pseudo bool // pseudo-element selectors allowed
+	used   bool // one was generated
+}
+
+func hasNested(b []Item) bool {
+	for _, it := range b {
+		if it.D == nil {
+			return true
+		}
+	}
+	return false
+}
+
+// wraps some members of a selector list as a::before / ::after / ::marker; only
+// for rules without nested rules (`&` cannot stand for a pseudo-element)
+func (g *gen) maybePseudo(group []*Sel, body []Item) []*Sel {
+	if !g.pseudo || hasNested(body) {
+		return group
+	}
+	for i, s := range group {
+		if g.r.Chance(1, 5) {
+			group[i] = &Sel{K: KPseudo, N: g.r.Range(1, 3), A: s}
+			g.used = true
+		}
+	}
+	return group
 }
 
 func (g *gen) nextVid() int { g.vid++; return g.vid }
@@ -687,7 +750,8 @@ func (g *gen) body(depth int) []Item {
 			if g.r.Chance(1, 4) {
 				pre = append(pre, g.nestedSel())
 			}
-			out = append(out, Item{Pre: pre, Inner: g.body(depth + 1)})
+			inner := g.body(depth + 1)
+			out = append(out, Item{Pre: g.maybePseudo(pre, inner), Inner: inner})
 		} else {
 			d := g.decl()
 			out = append(out, Item{D: &d})
@@ -725,7 +789,8 @@ func (g *gen) rules(depth int, n int) []Rule {
 	for i := 0; i < n; i++ {
 		switch k := g.r.Intn(20); {
 		case k < 14:
-			out = append(out, Rule{K: RStyle, G: g.group(), B: g.body(0)})
+			b := g.body(0)
+			out = append(out, Rule{K: RStyle, G: g.maybePseudo(g.group(), b), B: b})
 		case k < 17 && depth < 2:
 			out = append(out, Rule{K: RMedia, Q: g.media(), Inner: g.rules(depth+1, g.r.Range(1, 2))})
 		case k < 19 && depth < 2: // possibly misplaced @import
@@ -733,7 +798,8 @@ func (g *gen) rules(depth int, n int) []Rule {
 		case k == 19:
 			out = append(out, Rule{K: ROther})
 		default:
-			out = append(out, Rule{K: RStyle, G: g.group(), B: g.body(0)})
+			b := g.body(0)
+			out = append(out, Rule{K: RStyle, G: g.maybePseudo(g.group(), b), B: b})
 		}
 	}
 	return out
@@ -822,7 +888,7 @@ func (g *gen) elems(depth int, ids *[]int) string {
 }
 
 func randomDoc(r *vlib.Rng) *Doc {
-	g := &gen{r: r, vid: 10}
+	g := &gen{r: r, vid: 10, pseudo: r.Chance(1, 3)}
 	pool := []int{0, 1, 2, 3, 4, 5, 6, 7}
 	// 2 or 3 properties, width/height favoured (they compete with hints)
 	np := r.Range(1, 3)
@@ -868,6 +934,7 @@ func randomDoc(r *vlib.Rng) *Doc {
 		d.Props = append(d.Props, 7)
 	}
 	sort.Ints(d.Props)
+	d.Pseudo = g.used
 	return d
 }
 
@@ -1044,7 +1111,20 @@ func emitDoc(w *vlib.Writer, d *Doc, kind string, tags []string, comment string)
 		n := o.path[0]
 		idv, _ := attr(n, "id")
 		cl, _ := attr(n, "class")
-		elems = append(elems, fmt.Sprintf("<%s id=%q class=%q> props %v -> %v", n.Data, idv, cl, d.Props, o.vals))
+		line := fmt.Sprintf("<%s id=%q class=%q> props %v -> %v", n.Data, idv, cl, d.Props, o.vals)
+		for _, po := range o.pseudos {
+			if po.present {
+				line += fmt.Sprintf("  ::%s %v", pseudoNames[po.k], po.vals)
+				for _, v := range po.vals {
+					if v != 0 {
+						nz = true
+					}
+				}
+			} else {
+				line += fmt.Sprintf("  ::%s nil", pseudoNames[po.k])
+			}
+		}
+		elems = append(elems, line)
 		for _, v := range o.vals {
 			if v != 0 {
 				nz = true
@@ -1054,7 +1134,10 @@ func emitDoc(w *vlib.Writer, d *Doc, kind string, tags []string, comment string)
 	desc := map[string]interface{}{
 		"html": htmlText, "ua_sheet": ua, "hint_sheet": ph, "user_sheets": users, "fetched_files": f.m,
 		"device": devName(d.Device), "presentational_hints": d.Hints,
-		"observed (0 = no declaration won)": elems, "properties": propNames, "ast": d,
+		"observed (0 = no declaration won)": elems, "properties": propNames,
+	}
+	if kind == "random" || kind == "corpus" {
+		desc["ast"] = d // what a corpus file holds
 	}
 	if comment != "" {
 		desc["comment"] = comment
@@ -1148,7 +1231,7 @@ func main() {
 	nFlat := *n / 10
 	for i := 0; i < nFlat; i++ {
 		r := rng.Fork()
-		g := &gen{r: r, vid: 10, props: []int{r.Intn(8), r.Intn(8)}}
+		g := &gen{r: r, vid: 10, props: []int{r.Intn(8), r.Intn(8)}, pseudo: r.Chance(1, 3)}
 		rs := g.rules(0, r.Range(1, 3))
 		device := r.Range(1, 2)
 		f := &files{m: map[string]string{}}
@@ -1190,6 +1273,12 @@ func main() {
 		for _, b := range specs {
 			r := rng.Fork()
 			combos := [][2]int{{r.Intn(nPlacements), r.Intn(nPlacements)}}
+			if a.origin == b.origin && (a.imp == b.imp || a.origin == 0) && (a.rank == b.rank || (a.rank < 2 && b.rank < 2)) {
+				// decided by the order of appearance: more placements
+				for k := 0; k < 4; k++ {
+					combos = append(combos, [2]int{r.Intn(nPlacements), r.Intn(nPlacements)})
+				}
+			}
 			if thorough {
 				combos = nil
 				for x := 0; x < nPlacements; x++ {
@@ -1213,6 +1302,20 @@ func main() {
 						continue
 					}
 					tags := []string{"pair", "a:" + a.String(), "b:" + b.String(), "pl:" + placementNames[pl[0]], "pl:" + placementNames[pl[1]]}
+					sameLevel := a.origin == b.origin && (a.imp == b.imp || a.origin == 0)
+					if sameLevel {
+						tags = append(tags, "same-level")
+						ra, rb := a.rank, b.rank
+						if ra == 1 {
+							ra = 0
+						}
+						if rb == 1 {
+							rb = 0
+						}
+						if ra == rb {
+							tags = append(tags, "decided-by-order")
+						}
+					}
 					if a == b {
 						tags = append(tags, "tie")
 					}
@@ -1226,6 +1329,9 @@ func main() {
 			for _, b := range specs {
 				for _, c := range specs {
 					r := rng.Fork()
+					if !r.Chance(1, 3) { // a third of the triples (seeded)
+						continue
+					}
 					pl := []int{r.Intn(nPlacements), r.Intn(nPlacements), r.Intn(nPlacements)}
 					pairSeq++
 					prop := 6 + pairSeq%2
